@@ -33,6 +33,9 @@ def configs(ctx):
                             p["ta_reversed"] = True
                         if nta and not front and rng.random() < 0.4:
                             p["ta_on_ref"] = True
+                        elif nta and not front and fix in (None, "gamma"):
+                            p["ta_on_grid"] = "offref"   # deterministic: a splice exactly on a sampling location outside the reference sections
+                            p["nmatch"] = 0 if double else p["nmatch"]
                         p["fix_var"] = float(rng.choice([0.0, 1e-12]))
                         out.append(p)
     return out
